@@ -100,11 +100,14 @@ impl<'a> G<'a> {
         }
     }
     fn salt(&mut self) -> Option<B> {
-        match self.rng.below(6) {
-            0 | 1 => None,
-            2 | 3 => Some(vec![1]),
-            4 => Some(vec![2, 2]),
-            _ => Some(vec![7; 64]),
+        // the empty salt and a 65-byte salt are outside what instantiate2 accepts (1..=64 bytes): must be refused
+        match self.rng.below(14) {
+            0..=3 => None,
+            4..=7 => Some(vec![1]),
+            8 | 9 => Some(vec![2, 2]),
+            10 | 11 => Some(vec![7; 64]),
+            12 => Some(vec![]),
+            _ => Some(vec![7; 65]),
         }
     }
     fn inst_msg(&mut self) -> Msg {
@@ -338,6 +341,25 @@ fn fixed() -> Vec<History> {
             top(inst(&alice, 1, leaf(&mut n, vec![]), "", None, Some(vec![3]))),
         ],
     });
+    // the salt must have 1..=64 bytes: an empty or 65-byte salt is refused (never the classic address instead),
+    // every time, leaving the raw store as it was; the neighbouring lengths 1 and 64 are accepted
+    out.push(History {
+        users: users.clone(),
+        hops: vec![
+            Hop::Store { creator: None, src: full_src(201) },
+            top(inst(&alice, 1, leaf(&mut n, vec![]), "empty salt", None, Some(vec![]))),
+            top(inst(&alice, 1, leaf(&mut n, vec![]), "empty salt", None, Some(vec![]))),
+            top(TopOp::HelperInst { sender: bob.clone(), code_id: 1, p: leaf(&mut n, vec![]), funds: vec![], label: "empty salt".into(), admin: Some(alice.clone()), salt: Some(vec![]) }),
+            top(inst(&alice, 1, leaf(&mut n, vec![]), "long salt", None, Some(vec![9; 65]))),
+            top(inst(&alice, 1, leaf(&mut n, vec![]), "long salt", None, Some(vec![9; 65]))),
+            Hop::Data { c: classic_address(1, 0) },
+            top(inst(&alice, 1, leaf(&mut n, vec![]), "classic", None, None)),
+            top(inst(&alice, 1, leaf(&mut n, vec![]), "empty salt", None, Some(vec![]))),
+            top(inst(&alice, 1, leaf(&mut n, vec![]), "64", None, Some(vec![9; 64]))),
+            top(inst(&alice, 1, leaf(&mut n, vec![]), "1", None, Some(vec![0]))),
+            Hop::Data { c: classic_address(1, 1) },
+        ],
+    });
     // a rolled-back instantiation does not consume an instance number
     let d = classic_address(1, 0);
     let sub_fail = with_sub(&mut n, 1, ReplyOnS::Error, Msg::Inst { code_id: 1, p: failing(&mut Nodes(900)), funds: vec![], label: "gone".into(), admin: None, salt: None });
@@ -363,7 +385,7 @@ fn main() {
         &|rng, thorough| G::new(rng).run(thorough),
         40,
         400,
-        "histories = 1-4 code-table operations (store_code, store_code_with_creator, store_code_with_id with ids 0 / in use / non-contiguous / 2^64-2 / 2^64-1, duplicate_code of stored / unknown / 0), mint, a dispatcher contract, then 5-18 steps drawn from: further table operations, root instantiations (classic / instantiate2 with repeated salts, codes sharing a checksum, empty label, unknown id, failing or malformed body, overdraft; via execute or the instantiate helpers), dispatcher calls with 1-3 instantiating sub-messages under every reply mode (caught failures = rolled-back instantiations, followed by further instantiations), CodeInfo / ContractInfo / contract_data queries; then a SWEEP over every id in the table: CodeInfo, instantiate, migrate a contract to it, call it. 5 fixed histories first (both F2 witnesses, top of the id space, salted repetitions, rolled-back instance number). distinct by SHA-256 of the history; non-trivial = at least one store call returned an id, at least one instantiation succeeded and at least one was refused or rolled back",
+        "histories = 1-4 code-table operations (store_code, store_code_with_creator, store_code_with_id with ids 0 / in use / non-contiguous / 2^64-2 / 2^64-1, duplicate_code of stored / unknown / 0), mint, a dispatcher contract, then 5-18 steps drawn from: further table operations, root instantiations (classic / instantiate2 with repeated salts, empty and 65-byte salts, codes sharing a checksum, empty label, unknown id, failing or malformed body, overdraft; via execute or the instantiate helpers), dispatcher calls with 1-3 instantiating sub-messages under every reply mode (caught failures = rolled-back instantiations, followed by further instantiations), CodeInfo / ContractInfo / contract_data queries; then a SWEEP over every id in the table: CodeInfo, instantiate, migrate a contract to it, call it. 6 fixed histories first (both F2 witnesses, top of the id space, salted repetitions, salts of 0 / 65 / 64 / 1 bytes, rolled-back instance number). distinct by SHA-256 of the history; non-trivial = at least one store call returned an id, at least one instantiation succeeded and at least one was refused or rolled back",
         &|_, obs| {
             let stored = obs.iter().any(|o| matches!(o, HObs::Id { r: IdOut::Ok(_), .. }));
             let inst_ok = obs.iter().any(|o| matches!(o, HObs::Top(s) if matches!(s.outcome, OutcomeS::Ok(_)) && s.trace.iter().any(|e| matches!(e, Entry::Call { ep: Ep::Inst, .. }))));
